@@ -1,14 +1,21 @@
 // C15 harness: scripted workloads against the real FailableMemoryAllocator (installed as current malloc / new / new[]
 // allocator only around each request) and against the C-level out-of-memory simulation of TestHarness_c.cpp.
 // Scenario grammar: checks/C15.py.  One observation item per allocation / check / reset.
+// :R scenarios: blocks are kept in slots and released / reallocated / copied from while failures are injected; a private
+// MemoryLeakDetector with a recording, non-exiting failure reporter is the global one meanwhile, the PlatformSpecific
+// malloc / realloc / free seams record what the real allocator hands out and gets back.
 #include <new>
 #include <deque>
+#include <vector>
 #include <csetjmp>
 #include <csignal>
 #include "CppUTest/TestHarness.h"
 #include "CppUTest/TestHarness_c.h"
 #include "CppUTest/TestMemoryAllocator.h"
 #include "CppUTest/TestTestingFixture.h"
+#include "CppUTest/MemoryLeakDetector.h"
+#include "CppUTest/MemoryLeakWarningPlugin.h"
+#include "CppUTest/PlatformSpecificFunctions_c.h"
 #include "hlib.h"
 using namespace hl;
 
@@ -134,7 +141,7 @@ static void countScenario(Toks& t, Out& o)
         else if (k == ":r") {
             cpputest_malloc_set_not_out_of_memory();
             TestMemoryAllocator* c = getCurrentMallocAllocator();
-            o << std::string(c == defaultMallocAllocator() ? ":A 0" : c == &customAlloc ? ":A 1" : c == NullUnknownAllocator::defaultAllocator() ? ":A 2" : ":A 3");
+            o << std::string(c == defaultMallocAllocator() ? ":A 0" : c == &customAlloc ? ":A 1" : c == NullUnknownAllocator::defaultAllocator() ? ":A 2" : ":A 4");
             any = true;
         }
         else if (k == ":m") {
@@ -154,6 +161,172 @@ static void countScenario(Toks& t, Out& o)
     if (!any) o << ":-";
 }
 
+
+// ------------------------------------------------------------------------------------------------ :R scenarios
+// what the real allocator (the C library behind the PlatformSpecific seams) has handed out and not got back
+struct Region { char* base; size_t size; };
+static Region regions[4096]; static int nregions = 0;
+static bool seamOverflow = false;
+static char* watched = NULL; static bool watchedFreed = false;     // the block whose way back is being observed
+static void* (*origMalloc)(size_t); static void* (*origRealloc)(void*, size_t); static void (*origFree)(void*);
+static void addRegion(void* p, size_t n) { if (!p) return; if (nregions < 4096) { regions[nregions].base = (char*) p; regions[nregions].size = n; nregions++; } else seamOverflow = true; }
+static void dropRegion(void* p)
+{
+    for (int i = 0; i < nregions; i++)
+        if (regions[i].base == (char*) p) {
+            if (watched && watched >= regions[i].base && watched < regions[i].base + (regions[i].size ? regions[i].size : 1)) watchedFreed = true;
+            regions[i] = regions[--nregions]; return;
+        }
+}
+static void* seamMalloc(size_t n) { void* p = origMalloc(n); addRegion(p, n); return p; }
+static void* seamRealloc(void* q, size_t n) { void* p = origRealloc(q, n); if (p) { if (q) dropRegion(q); addRegion(p, n); } return p; }
+static void seamFree(void* p) { if (p) dropRegion(p); origFree(p); }
+
+static bool allocatorSaw = false;              // the test's own allocator was handed the watched block
+template <class Base> class Rec : public Base
+{
+public:
+    Rec(const char* n, const char* a, const char* f) : Base(n, a, f) {}
+    void free_memory(char* memory, size_t size, const char* file, size_t line) CPPUTEST_OVERRIDE
+    {
+        if (watched && memory == watched) allocatorSaw = true;
+        Base::free_memory(memory, size, file, line);
+    }
+};
+static Rec<TestMemoryAllocator> recCustom("Custom Malloc Allocator", "malloc", "free");
+
+class RecFailure : public MemoryLeakFailure
+{
+public:
+    int count;
+    RecFailure() : count(0) {}
+    void fail(char*) CPPUTEST_OVERRIDE { count++; }
+};
+static RecFailure relReporter;
+static MemoryLeakDetector* relDetector = NULL;
+
+struct Slot { char* p; size_t n; bool freed; };
+static void fillPattern(const Slot& b, int idx) { for (size_t k = 0; k + 1 < b.n; k++) b.p[k] = (char) ('A' + (idx * 7 + (int) k) % 26); if (b.n) b.p[b.n - 1] = 0; }
+static bool hasPattern(const Slot& b, int idx, size_t upto)
+{
+    for (size_t k = 0; k < upto && k + 1 < b.n; k++) if (b.p[k] != (char) ('A' + (idx * 7 + (int) k) % 26)) return false;
+    return upto < b.n || b.n == 0 || b.p[b.n - 1] == 0;
+}
+
+struct ROp { char k; long long a; unsigned long long b; };
+
+static void relScenario(Toks& t, Out& o)
+{
+    int backing = t.n();
+    std::vector<ROp> ops;
+    while (!t.end()) {
+        std::string k = t.next(); ROp r; r.k = 0; r.a = 0; r.b = 0;
+        if (k == ":o" || k == ":r" || k == ":c") r.k = k[1];
+        else if (k == ":d" || k == ":g") { r.k = k[1]; r.a = t.z(); }
+        else if (k == ":m" || k == ":f") { r.k = k[1]; r.a = (long long) t.u(); }
+        else if (k == ":s" || k == ":y") { r.k = k[1]; r.a = (long long) t.u(); r.b = t.u(); }
+        else { fprintf(stderr, "bad rop %s\n", k.c_str()); exit(3); }
+        ops.push_back(r);
+    }
+    static Slot slots[1024]; static int nslots; nslots = 0;
+    static char out[65536]; static size_t on; on = 0; out[0] = 0;
+    Rec<FailableMemoryAllocator>* fail = backing == 3 ? new Rec<FailableMemoryAllocator>("Failable Allocator", "malloc", "free") : NULL;
+    if (!relDetector) { relDetector = new MemoryLeakDetector(&relReporter); relDetector->enable(); }
+
+    // ---- from here to the restore below the harness itself allocates nothing
+    cpputest_malloc_set_not_out_of_memory();          // known initial state of the file-static variables
+    if (backing == 1) setCurrentMallocAllocator(&recCustom); else if (backing == 3) setCurrentMallocAllocator(fail); else setCurrentMallocAllocatorToDefault();
+    TestMemoryAllocator* start = getCurrentMallocAllocator();
+    MemoryLeakDetector* origDetector = MemoryLeakWarningPlugin::getGlobalDetector();
+    MemoryLeakFailure* origReporter = MemoryLeakWarningPlugin::getGlobalFailureReporter();
+    MemoryLeakWarningPlugin::setGlobalDetector(relDetector, &relReporter);
+    size_t tracked0 = relDetector->totalMemoryLeaks(mem_leak_period_all);
+    origMalloc = PlatformSpecificMalloc; origRealloc = PlatformSpecificRealloc; origFree = PlatformSpecificFree;
+    PlatformSpecificMalloc = seamMalloc; PlatformSpecificRealloc = seamRealloc; PlatformSpecificFree = seamFree;
+    nregions = 0; seamOverflow = false; watched = NULL;
+    volatile bool crashed = false;
+    volatile size_t at = 0;
+#define EMIT(...) do { if (on < sizeof out - 64) on += (size_t) snprintf(out + on, sizeof out - on, __VA_ARGS__); } while (0)
+    if (sigsetjmp(crashJmp, 1)) { crashed = true; EMIT("3 "); }
+    for (; !crashed && at < ops.size(); at++) {
+        const ROp r = ops[at];
+        int f0 = relReporter.count;
+        inRequest = 1;
+        switch (r.k) {
+        case 'o': cpputest_malloc_set_out_of_memory(); break;
+        case 'd': cpputest_malloc_set_out_of_memory_countdown((int) r.a); break;
+        case 'r': {
+            cpputest_malloc_set_not_out_of_memory();
+            TestMemoryAllocator* c = getCurrentMallocAllocator();
+            EMIT(":A %d ", c == defaultMallocAllocator() ? 0 : c == &recCustom ? 1 : (fail && c == fail) ? 3 : c == start ? backing : 4);
+            break; }
+        case 'g': if (fail) fail->failAllocNumber((int) r.a); break;
+        case 'c': if (fail) fail->clearFailedAllocs(); break;
+        case 'm': case 's': {
+            if (nslots >= 1024) break;
+            Slot nb; nb.p = NULL; nb.n = 0; nb.freed = false;
+            bool intact = true; int src = (int) r.b;
+            if (r.k == 'm') {
+                int fam = (int) r.a;
+                nb.p = fam == 0 ? (char*) cpputest_malloc(8) : fam == 1 ? (char*) cpputest_calloc(2, 4) : fam == 2 ? cpputest_strdup("hello") : cpputest_strndup("hello", 3);
+                nb.n = fam == 0 || fam == 1 ? 8 : fam == 2 ? 6 : 4;
+            } else {
+                if (src < 0 || src >= nslots || !slots[src].p || slots[src].freed) { EMIT(":P 3 0 "); break; }
+                size_t len = strlen(slots[src].p);
+                if ((int) r.a == 2) { nb.p = cpputest_strdup(slots[src].p); nb.n = len + 1; }
+                else { nb.p = cpputest_strndup(slots[src].p, 3); nb.n = (len < 3 ? len : 3) + 1; }
+                intact = hasPattern(slots[src], src, slots[src].n) && (!nb.p || (strncmp(nb.p, slots[src].p, nb.n - 1) == 0 && nb.p[nb.n - 1] == 0));
+            }
+            if (nb.p) fillPattern(nb, nslots);
+            if (r.k == 'm') EMIT("%d ", nb.p ? 0 : 1); else EMIT(":P %d %d ", nb.p ? 0 : 1, intact ? 1 : 0);
+            slots[nslots++] = nb;
+            break; }
+        case 'f': {
+            int i = (int) r.a;
+            if (i < 0 || i >= nslots || slots[i].freed) { EMIT(":Q 1 0 "); break; }
+            watched = slots[i].p; watchedFreed = false; allocatorSaw = false;
+            cpputest_free(slots[i].p);
+            bool given = watched && watchedFreed && (backing == 0 || allocatorSaw);
+            watched = NULL;
+            if (slots[i].p) slots[i].freed = true;
+            EMIT(":Q %d %d ", relReporter.count != f0 ? 1 : 0, given ? 1 : 0);
+            break; }
+        case 'y': {
+            int i = (int) r.a; size_t n = (size_t) r.b;
+            if (i < 0 || i >= nslots || slots[i].freed) { EMIT(":Y 3 1 0 "); break; }
+            char* q = (char*) cpputest_realloc(slots[i].p, n);
+            bool intact;
+            if (q) {
+                Slot moved; moved.p = q; moved.n = slots[i].n; moved.freed = false;
+                size_t keep = slots[i].p ? (slots[i].n < n ? slots[i].n : n) : 0;
+                intact = keep == 0 || hasPattern(moved, i, keep);
+                slots[i].p = q; slots[i].n = n; fillPattern(slots[i], i);
+            } else intact = !slots[i].p || hasPattern(slots[i], i, slots[i].n);
+            EMIT(":Y %d %d %d ", q ? 0 : 1, relReporter.count != f0 ? 1 : 0, intact ? 1 : 0);
+            break; }
+        }
+        inRequest = 0;
+    }
+    inRequest = 0;
+    size_t tracked = relDetector->totalMemoryLeaks(mem_leak_period_all) - tracked0;
+    // give everything back, then nothing the real allocator handed out may be outstanding
+    cpputest_malloc_set_not_out_of_memory();
+    setCurrentMallocAllocator(start);
+    if (!crashed) {
+        for (int i = 0; i < nslots; i++) if (slots[i].p && !slots[i].freed) { cpputest_free(slots[i].p); slots[i].freed = true; }
+        if (fail) fail->clearFailedAllocs();
+    }
+    bool clean = nregions == 0 && !seamOverflow;
+    PlatformSpecificMalloc = origMalloc; PlatformSpecificRealloc = origRealloc; PlatformSpecificFree = origFree;
+    MemoryLeakWarningPlugin::setGlobalDetector(origDetector, origReporter);
+    setCurrentMallocAllocatorToDefault();
+    // ---- the harness may allocate again
+    if (!crashed) EMIT(":E %lx %d", (unsigned long) tracked, clean ? 1 : 0);
+#undef EMIT
+    delete fail;
+    o << std::string(out);
+}
+
 int main()
 {
     setvbuf(stdout, NULL, _IONBF, 0);
@@ -163,6 +336,7 @@ int main()
         std::string kind = t.next();
         if (kind == ":F") failScenario(t, o);
         else if (kind == ":C") countScenario(t, o);
+        else if (kind == ":R") relScenario(t, o);
         else { fprintf(stderr, "bad scenario kind %s\n", kind.c_str()); exit(3); }
         o.flush();
     }
